@@ -91,6 +91,11 @@ class C08(Prop):
             yield {"k": "wideentropy", "rows": rows2, "r": r2, "block": {"rows": ins_to_state(m), "r": r2}, "n": nn, "kk": k,
                    "regions": regions, "form": ("list", "mask", "ndarray")[(i + 1) % 3]}
 
+        # one live state object: entropies asked between in-place changes (rotation, measurement, gate, post-selection)
+        for i, (n, m) in enumerate(self.big[:30 if thorough else 10]):
+            yield {"k": "live", "rows": ins_to_state(m), "r": i % (n + 1), "seed": self.seed + i,
+                   "ops": [[rng.randrange(4) for _ in range(n)] + [rng.choice((0, 2))] for _ in range(5)],
+                   "regions": [[1], list(range(1, n)), [n, 1] if n > 1 else [1]], "pkg": "py"}
         # very wide pure states (129..140 qubits): GHZ states in other local bases (every qubit rotated by S and / or H), so
         # that a stabilizer has 128 or more Y / X letters on one side of the cut
         for j, nn in enumerate((129, 130, 140) if thorough else (129, 130)):
@@ -100,6 +105,31 @@ class C08(Prop):
 
     def execute(self, scn, be):
         import numpy
+        if scn["k"] == "live":
+            out = []
+            n = len(scn["rows"]) // 2
+            try:
+                S = be.state(scn["rows"], scn["r"])
+                for t, g in enumerate(scn["ops"]):
+                    cur = be.p_state(S)
+                    rec = {"op": "entropy", "form": "live", "pre": cur, "regions": scn["regions"]}
+                    rec["vals"] = []
+                    for reg in scn["regions"]:
+                        v = _as_int(S.entropy([q - 1 for q in reg]))
+                        rec["vals"].append(-99 if v is None else v)
+                    rec["pre1"] = be.p_state(S)
+                    out.append(rec)
+                    if any(g[:-1]):
+                        if t % 3 == 0:
+                            S.rotate_by(be.pauli(g))
+                        elif t % 3 == 1:
+                            be.seed(scn["seed"] + t)
+                            S.measure(be.plist([g]))
+                        else:
+                            be.circuit.H(t % n).forward(S)
+            except Exception as e:
+                out.append({"op": "entropy", "form": "live", "pre": {"rows": scn["rows"], "r": scn["r"]}, "regions": [], "vals": [], "exc": _exc(e)})
+            return out
         if scn["k"] == "ghzentropy":
             nn = scn["n"]
             rec = {"op": "ghzentropy", "n": nn, "basis": scn["basis"], "regions": scn["regions"], "form": scn["form"]}
